@@ -100,7 +100,7 @@ impl Scenario for C02 {
             real: vec!["server TcpTransport reader loop, Chunker::decode, SupportedMessage::decode_by_object_id and every BinaryEncoder::decode it reaches", "client TransportState::process_chunk / Chunker::decode", "DecodingOptions / DepthGauge", "TcpCodec"],
             stubbed: vec!["TCP socket", "the peer that sends the corrupted bytes (raw scripted client or server built from the real Chunker / SecureChannel)"],
             assumptions: vec!["security policy None (with Sign / SignAndEncrypt the same bytes reach the decoder only from an authenticated peer; the chunk-level layer is C09)", "receiver thread stack 2 MiB (tokio worker default); the process main thread has 8 MiB", "allocation is counted process-wide, so the bound includes the harness's own buffers for the message"],
-            fault_kinds: vec!["bit_flip", "byte_overwrite", "length_overwrite", "truncate", "type_id_swap", "nest_datavalue_variant", "nest_variant_variant", "nest_diagnostic_info", "nest_extension_object", "nest_array_of_arrays", "array_dimensions", "server_to_client"],
+            fault_kinds: vec!["bit_flip", "byte_overwrite", "length_overwrite", "truncate", "type_id_swap", "nest_datavalue_variant", "nest_variant_variant", "nest_diagnostic_info", "nest_extension_object", "nest_array_of_arrays", "array_dimensions", "over_limit_array", "over_limit_string", "direct_headers", "server_to_client"],
         }
     }
     fn runs(&self, tier: Tier) -> u64 {
@@ -118,6 +118,8 @@ impl Scenario for C02 {
         for _ in 0..rng.urange(1, 6) {
             let carrier = if to_client {
                 *rng.pick(&["read_response", "read_response", "fault_diag"])
+            } else if rng.chance(0.04) {
+                "direct_headers"
             } else if rng.chance(0.45) {
                 *rng.pick(&["write", "call", "create_items"])
             } else {
@@ -126,7 +128,7 @@ impl Scenario for C02 {
             let mut muts = Vec::new();
             let hand_built = matches!(carrier, "write" | "call" | "create_items" | "read_response" | "fault_diag");
             if hand_built {
-                let kind = *rng.pick(&["nest_datavalue_variant", "nest_datavalue_variant", "nest_variant_variant", "nest_diagnostic_info", "nest_diagnostic_info", "nest_extension_object", "nest_array_of_arrays", "array_dimensions"]);
+                let kind = *rng.pick(&["nest_datavalue_variant", "nest_datavalue_variant", "nest_variant_variant", "nest_diagnostic_info", "nest_diagnostic_info", "nest_extension_object", "nest_array_of_arrays", "array_dimensions", "over_limit_array", "over_limit_string"]);
                 let depth = *rng.pick(&[2u64, 5, 9, 10, 11, 12, 64, 1000, 20_000, 100_000, 200_000]);
                 muts.push(json!({"m": kind, "depth": depth}));
             }
@@ -228,6 +230,20 @@ fn nesting(kind: &str, depth: usize) -> Vec<u8> {
                 }
             }
             b.extend_from_slice(&inner);
+        }
+        // DataValue{value: Variant(Byte array)} one element longer than max_array_length (= depth)
+        "over_limit_array" => {
+            b.push(0x01);
+            b.push(3 | 0x80);
+            b.extend_from_slice(&((depth + 1) as i32).to_le_bytes());
+            b.extend(std::iter::repeat(7u8).take(depth + 1));
+        }
+        // DataValue{value: Variant(String)} one byte longer than max_string_length (= depth)
+        "over_limit_string" => {
+            b.push(0x01);
+            b.push(12);
+            b.extend_from_slice(&((depth + 1) as i32).to_le_bytes());
+            b.extend(std::iter::repeat(b'a').take(depth + 1));
         }
         // DataValue{value: Variant(Int32 array with dimensions)} whose dimensions are hostile:
         // `depth` selects the pattern
@@ -402,6 +418,47 @@ fn chunks_of(chan: &opcua::core::comms::secure_channel::SecureChannel, first_seq
     out
 }
 
+/// Tiny frames handed to the chunk / frame decoders directly: every type x final flag x declared
+/// size 0..=24 x actual length.
+fn direct_headers(ctx: &mut Ctx) {
+    use opcua::core::comms::tcp_codec::TcpCodec;
+    use tokio_util::codec::Decoder;
+    ctx.fault("direct_headers");
+    let opts = DecodingOptions::default();
+    for ty in [b"MSG", b"OPN", b"CLO", b"HEL", b"ACK", b"ERR", b"XYZ"] {
+        for fin in [b'F', b'C', b'A', b'X'] {
+            for declared in 0u32..=24 {
+                for actual in [declared as usize, 8, 12, 16, 24] {
+                    let mut bytes = Vec::new();
+                    bytes.extend_from_slice(ty);
+                    bytes.push(fin);
+                    bytes.extend_from_slice(&declared.to_le_bytes());
+                    while bytes.len() < actual.max(8) {
+                        bytes.push(1);
+                    }
+                    let b2 = bytes.clone();
+                    let o2 = opts.clone();
+                    let r = crate::panics::catch(move || {
+                        let _ = MessageChunk::decode(&mut std::io::Cursor::new(&b2[..]), &o2);
+                        let mut codec = TcpCodec::new(o2.clone());
+                        let mut buf = bytes::BytesMut::from(&b2[..]);
+                        let _ = codec.decode(&mut buf);
+                    });
+                    if let Err(p) = r {
+                        if crate::panics::in_real_code(&p) {
+                            ctx.violate("C02", "panic", &p.discriminator(), format!("decoding the {} bytes {:02x?} as a chunk / frame panicked: {}", bytes.len(), &bytes[..bytes.len().min(16)], p.describe()));
+                            return;
+                        }
+                        panic!("harness error: {}", p.describe());
+                    }
+                }
+            }
+        }
+    }
+    ctx.nontrivial = true;
+    ctx.log("direct_headers", "");
+}
+
 fn spec_for(limits: &str, rng: &mut Rng) -> ServerSpec {
     let mut spec = ServerSpec::default();
     match limits {
@@ -454,16 +511,26 @@ async fn run_to_server(plan: &Value, ctx: &mut Ctx) {
         }
         let carrier = s["carrier"].as_str().unwrap_or("read").to_string();
         let muts = s["muts"].as_array().cloned().unwrap_or_default();
+        if carrier == "direct_headers" {
+            direct_headers(ctx);
+            continue;
+        }
         let mut rng = Rng::new(s["rseed"].as_u64().unwrap_or(1));
         let hdr = c.header();
         let mut depth_over_limit = false;
         let mut body: Vec<u8> = if matches!(carrier.as_str(), "write" | "call" | "create_items") {
             let first = muts.first().cloned().unwrap_or(json!({}));
             let kind = first["m"].as_str().unwrap_or("nest_datavalue_variant");
-            let depth = first["depth"].as_u64().unwrap_or(3) as usize;
+            let mut depth = first["depth"].as_u64().unwrap_or(3) as usize;
             ctx.fault(kind);
+            // a value one element / byte over the configured limit must be refused as well
+            if kind == "over_limit_array" {
+                depth = if spec.max_array_length > 0 { spec.max_array_length } else { 1000 };
+            } else if kind == "over_limit_string" {
+                depth = if spec.max_string_length > 0 { spec.max_string_length } else { 65535 };
+            }
             // depth beyond the gauge (10) must be refused for the recursive kinds
-            depth_over_limit = depth > 12 && matches!(kind, "nest_datavalue_variant" | "nest_variant_variant" | "nest_diagnostic_info" | "nest_array_of_arrays");
+            depth_over_limit = (depth > 12 && matches!(kind, "nest_datavalue_variant" | "nest_variant_variant" | "nest_diagnostic_info" | "nest_array_of_arrays")) || kind.starts_with("over_limit_");
             let mut n = nesting(kind, depth);
             n.truncate(max_msg.saturating_sub(400).min(300_000));
             hand_built(&carrier, &hdr, 0, &n)
@@ -512,7 +579,7 @@ async fn run_to_server(plan: &Value, ctx: &mut Ctx) {
         if depth_over_limit && applied.is_empty() && matches!(carrier.as_str(), "write" | "call") {
             let accepted = matches!(&r, Recv::Msg(_, m) if l2::response_status(m).is_good());
             if accepted {
-                ctx.violate("C02", "deep-nesting-accepted", &carrier, format!("a {} message nested far beyond the decoding depth was answered with {}", carrier, outcome));
+                ctx.violate("C02", "deep-nesting-accepted", &carrier, format!("a {} message nested beyond the decoding depth, or carrying a value one over the configured length limit, was answered with {}", carrier, outcome));
             }
         }
     }
